@@ -13,6 +13,7 @@ void wcfg_parse(wcfg *c, char **tok, int n) {
     c->max = kvi(tok, n, "max", 0);
     c->max2 = kvi(tok, n, "max2", 0);
     c->nowrite = (int)kvi(tok, n, "nowrite", 0);
+    c->refuse = (int)kvi(tok, n, "refuse", 0);
 }
 
 #define OPT(call, name) do { if(!(call)) { if(out) fprintf(out, " refused=%s", name); return false; } } while(0)
@@ -30,6 +31,21 @@ bool wcfg_apply(zckCtx *zck, const wcfg *c, FILE *out) {
     if(c->min) OPT(zck_set_ioption(zck, ZCK_CHUNK_MIN, c->min), "min");
     if(c->max2) OPT(zck_set_ioption(zck, ZCK_CHUNK_MAX, c->max2), "max2");
     if(c->nowrite) OPT(zck_set_ioption(zck, ZCK_NO_WRITE, 1), "nowrite");
+    if(c->refuse) {
+        /* values no configuration may take; a call that is accepted after all becomes part of the configuration and is
+         * reported (accepted=<name>) so that the check makes no claim about that case */
+#define REFUSED(call, name) do { if(call) fprintf(out, " accepted=%s", name); else if(!zck_clear_error(zck)) { fprintf(out, " fatal=%s", name); return false; } } while(0)
+        REFUSED(zck_set_ioption(zck, ZCK_HASH_CHUNK_TYPE, 100), "chash100");
+        REFUSED(zck_set_ioption(zck, ZCK_HASH_FULL_TYPE, 100), "fhash100");
+        REFUSED(zck_set_ioption(zck, ZCK_CHUNK_MIN, 0), "min0");
+        REFUSED(zck_set_ioption(zck, ZCK_CHUNK_MAX, 0), "max0");
+        REFUSED(zck_set_ioption(zck, ZCK_CHUNK_MIN, (c->max2 ? c->max2 : c->max ? c->max : 10485760L) + 1), "min>max");
+        if(c->min > 1) REFUSED(zck_set_ioption(zck, ZCK_CHUNK_MAX, c->min - 1), "max<min");
+        REFUSED(zck_set_ioption(zck, ZCK_CHUNK_MIN, 2147483648L), "min2^31");
+        REFUSED(zck_set_ioption(zck, ZCK_COMP_TYPE, 99), "comp99");
+        REFUSED(zck_set_ioption(zck, 9999, 1), "ioption9999");
+        REFUSED(zck_set_soption(zck, 9999, "x", 1), "soption9999");
+    }
     return true;
 }
 
